@@ -89,6 +89,24 @@ def render_wide(shape, n):
     return [("entry.ts", body + call)]
 
 
+REC_DECL = {
+    "tuplerest": ("type T = [number, ...T[]];", "T"),
+    "optnext": ("type T = { v: string; next?: T };", "T"),
+    "nullnext": ("type T = { v: string; next: T | null };", "T"),
+    "kids": ("type T = { v: string; kids: T[] };", "T"),
+    "twokids": ("type T = { v: string; kids: T[] }; type U = { v: number; kids: U[] };", "(T | U)"),
+    "twotuples": ("type T = [string, ...T[]]; type U = [number, ...U[]];", "(T | U)"),
+}
+REC_OP = {"exclude": "Exclude<{0} | string | null, string>", "nonnullable": "NonNullable<{0} | null>", "keyof": "keyof {0}",
+          "index": '{0}["kids" | "next" | 0]'}
+
+
+def render_rec(shape, op):
+    """a computed type over a recursive operand (some combinations are diagnosed by the compiler: a diagnostic is an output too)"""
+    decl, name = REC_DECL[shape]
+    return [("entry.ts", 'import parse from "./parser";\n' + decl + "\ntype E = " + REC_OP[op].format(name) + ";\nparse.buildParsers<{ E: E }>();\n")]
+
+
 def digest(r):
     if r["outcome"] == "code":
         body = r["code"]
@@ -142,6 +160,14 @@ def run(prop, tier):
     cases, gst = p_val.generate([("union", 1), ("disc", 1), ("object", 1)] if tier == "quick" else [("union", 2), ("disc", 2), ("object", 2), ("util", 1)], tag + "-gen")
     for c in cases:
         projs.append({"origin": "typegen", "name": vlib.ts(c.get("nty", c["ty"]))[:80], "files": [("entry.ts", vlib.render_program(c["env"], c.get("nty", c["ty"])))], "multifail": False})
+    # computed types over recursive operands: the engine writes them back under generated names (RecursiveGeneratedN)
+    cfgr = os.path.join(d, "MC_Determinism_rec.cfg")
+    vlib.write_cfg(cfgr, spec="RSpec", constants={"NExports": n}, invariants=["EmitRec"])
+    grr = vlib.run_tlc(cfgr, os.path.join(vlib.VERIF, "spec/mc/MC_Determinism.tla"), workers=2, heap="1g", tag="determinism-rec")
+    if not grr["ok"]:
+        raise ToolError("recursive-computed project generation failed:\n" + grr["tail"])
+    for p in vlib.tagged_lines(grr["lines"], "REC"):
+        projs.append({"origin": "generated", "kinds": [p["shape"], p["op"]], "style": "recursive-computed", "files": render_rec(p["shape"], p["op"]), "multifail": False})
     for c in corpus.programs():
         # corpus programs that are known to diverge (cyclic aliases) are excluded by C04's watchdog there; here skip hangs by timeout
         projs.append({"origin": "corpus", "name": c["name"], "files": list(c["files"]), "multifail": False})
@@ -168,6 +194,13 @@ def run(prop, tier):
                 reqs_by_proc[k].append(r)
                 meta[rid] = (pi, oi, k, order)
                 rid += 1
+    # a compilation must not depend on what the same process compiled before it: the processes go through the projects in
+    # different orders (as generated, reversed, seeded shuffles), so every project meets different predecessors
+    for k in range(K):
+        if k % 3 == 1:
+            reqs_by_proc[k].reverse()
+        elif k % 3 == 2:
+            rng.shuffle(reqs_by_proc[k])
     import concurrent.futures as cf
     with cf.ThreadPoolExecutor(max_workers=K) as ex:
         outs = list(ex.map(one_process, reqs_by_proc))
